@@ -135,14 +135,28 @@ def gen_cases(ctx, n):
                      for b, y in enumerate(al) if y.kind == "file" and y.path.startswith(x.path + b"/")]
             a, b = r.choice(pairs)
             idxs = [r.randrange(128) for _ in range(r.randrange(0, 3))] + [a, raw, b] + [r.randrange(128) for _ in range(r.randrange(0, 2))]
+        pre_kind = None
+        if i % 6 == 3:
+            # a symbolic link ALREADY PRESENT at the output path of a dangerous link (a second extraction of the same archive, or a link
+            # the user left there), pointing at an existing file outside / at a name outside that does not exist: the placeholder and the
+            # final link must replace it, never write through it
+            al = alphabet(r, b"/X")
+            dang = [j for j, e in enumerate(al) if e.kind == "link" and (b".." in e.target or e.target.startswith(b"/"))
+                    and b".." not in e.path and b"\x00" not in e.path and not e.path.startswith(b"/")]
+            idxs = [r.randrange(128) for _ in range(r.randrange(0, 3))] + [r.choice(dang)] + [r.randrange(128) for _ in range(r.randrange(0, 2))]
+            pre_kind = r.choice(["canary", "dangling"])
         if i % 6 == 4:
             idxs = [r.randrange(128) for _ in range(r.randrange(0, 3))] + [r.choice([54, 55, 56])] + [r.randrange(128) for _ in range(r.randrange(0, 2))]
         level = r.choice([0, 1, 2, 2])
         style = r.choice([0, 0, 0, 1])
         opts = r.choice([["f"], ["q"], ["q1"], ["f", "i"], ["f", "w" + b"sub".hex()], ["f", "w" + b"sub/../x".hex()]])
         as_root = r.random() < 0.6
-        out.append(Case("x10 %s %d %d %d %s" % (",".join(opts), 1 if as_root else 0, level, style, ",".join(map(str, idxs))),
-                        tags={"extract", "root" if as_root else "nobody", "style=%d" % style}, note="x"))
+        if pre_kind:
+            opts = r.choice([["f"], ["f", "i"], ["f", "w" + b"sub".hex()]])
+        out.append(Case("x10 %s %d %d %d %s%s" % (",".join(opts), 1 if as_root else 0, level, style, ",".join(map(str, idxs)),
+                                                   (" pre=" + pre_kind) if pre_kind else ""),
+                        tags={"extract", "root" if as_root else "nobody", "style=%d" % style} | ({"pre-existing-link=" + pre_kind} if pre_kind else set()),
+                        note="x"))
         if i % 4 == 0:
             out.append(Case("ro10 %s %d %d %s" % (r.choice(READONLY_MODES), level, style, ",".join(map(str, idxs))), tags={"readonly"}, note="ro"))
     return out
@@ -230,7 +244,27 @@ def run_case(ctx, env, c):
         def mk(base):
             holder["arch"] = build(rr, base, idxs, level, style)
             return holder["arch"]
-        res = SB.run_extract(env["lha"], ctx.tmp, mk, opts, as_root=as_root)
+        pre = []
+        if len(t) > 6 and t[6].startswith("pre="):
+            tail = b"canary" if t[6] == "pre=canary" else b"brand-new"
+            wdir = next((bytes.fromhex(o[1:]) for o in opts if o.startswith("w")), b"")
+            flat = "i" in opts
+            seen = set()
+            for e in [alphabet(rr, b"/X")[i % len(alphabet(rr, b"/X"))] for i in idxs]:
+                if e.kind == "link" and (b".." in e.target or e.target.startswith(b"/")) and b".." not in e.path and b"\x00" not in e.path \
+                        and not e.path.startswith(b"/"):
+                    rel = (e.path.rsplit(b"/", 1)[-1] if flat else e.path)
+                    rel = (wdir + b"/" if wdir else b"") + rel
+                    if rel in seen or any(rel.startswith(q + b"/") or q.startswith(rel + b"/") for q in seen):
+                        continue
+                    seen.add(rel)
+                    comps = rel.split(b"/")[:-1]
+                    for k in range(1, len(comps) + 1):          # its parent directories exist too (in the real world and in the model)
+                        dpath = b"/".join(comps[:k])
+                        if not any(x[1] == dpath for x in pre):
+                            pre.append(("d", dpath, 0o755))
+                    pre.append(("l", rel, b"../" * (rel.count(b"/") + 1) + b"outside/" + tail))
+        res = SB.run_extract(env["lha"], ctx.tmp, mk, opts, as_root=as_root, pre=pre)
         why = None
         if res["verdict"] != "ok":
             why = "tool crashed: " + res["verdict"]
@@ -240,7 +274,8 @@ def run_case(ctx, env, c):
             why = "new objects beside the extraction directory: " + str(top_level(res["listing"]))
         elif res.get("base_changed"):
             why = "the PARENT of the extraction directory was modified (outside the extraction directory): " + res["base_changed"]
-        mop = "xrun %s %d %s - - %s" % (",".join(opts), 1 if as_root else 0, res["abs_prefix"].hex(), holder["arch"].hex())
+        pre_txt = ",".join(("l:%s:%s" % (p_.hex(), tg.hex())) if k_ == "l" else ("d:%s:%o" % (p_.hex(), tg)) for k_, p_, tg in pre) or "-"
+        mop = "xrun %s %d %s - %s %s" % (",".join(opts), 1 if as_root else 0, res["abs_prefix"].hex(), pre_txt, holder["arch"].hex())
         return {"why": why, "listing": res["listing"], "rc": res["rc"], "model_op": mop, "stderr": res["stderr"][:200]}
     else:
         mode, level, style, idxs = t[1], int(t[2]), int(t[3]), [int(x) for x in t[4].split(",")]
